@@ -32,6 +32,9 @@ INVARIANT C09b_YfitIsSpline
 INVARIANT C09b_NoBetterNeighbour
 INVARIANT C09b_ZeroWeightInvariant
 INVARIANT C09b_LinearInY
+INVARIANT C09b_WeightScaleInvariant
+INVARIANT C09b_YHomogeneous
+INVARIANT C09b_SupportScaleInvariant
 INVARIANT C09b_PolyReproduced
 INVARIANT C09b_SupportAgrees
 INVARIANT C09b_WellSupportedIsWellPosed
